@@ -5,11 +5,13 @@ From Coq Require Import List ZArith Bool.
 Import ListNotations.
 From Zn.model Require Import Lexer Ast Parser.
 From Zn.proofs Require Import FrontCompleteProofs.
-From Zn.proofs Require ExprPrecProofs ExprPrecSpacesProofs ChainPrecProofs StmtNestProofs LayoutInvProofs.
+From Zn.proofs Require ExprPrecProofs ExprPrecSpacesProofs ChainPrecProofs StmtNestProofs LayoutInvProofs SectionsTokProofs SectionsProofs.
 Module EP := ExprPrecProofs.
 Module CP := ChainPrecProofs.
 Module SN := StmtNestProofs.
 Module LI := LayoutInvProofs.
+Module ST := SectionsTokProofs.
+Module SE := SectionsProofs.
 Module EPS := ExprPrecSpacesProofs.
 Open Scope Z_scope.
 
@@ -121,6 +123,28 @@ Example C03_example_nesting :         (* 每当 A / 如果 B / 每当 C / D, the
   compile (default_fuel SN.ex_src1) SN.ex_src1
   = OTree SN.ex_tree1 [mkLine 0 0; mkLine 1 7; mkLine 2 18; mkLine 3 33; mkLine 1 47; mkLine 0 53] GenFrontTokens.g_IndentSpace.
 Proof. exact SN.ex1_by_theorem. Qed.
+
+(* ---- program sections and the other statement kinds ----
+   [ST.yprog]: import lines (导入“name” / 导入《lib》, optionally 之 / 的 a、b), an optional input line (输入 a、b), statements, and
+   拦截 X： sections; statements [ST.ystmt] add to the fragment above: 令 a、b = e, the three 遍历 forms (遍历 e： / 以 V 遍历 e： /
+   以 K、V 遍历 e：), 抛出 X：e1、e2！, 结束循环, 继续循环 and method definitions 如何 F？ with their own exec block (输入 line,
+   statements, 拦截 sections) nested to any depth.  Canonical printing; the prescribed program is
+   mkProgram imports (Some (XBlock inputs statements catches)) — or mkProgram imports None for a text of imports only.
+   The side conditions of [SE.qprog_ok] are forced by the parser (an exec block holds a statement or a 拦截 section; sections come in
+   the order imports, input, statements, catches): the rejected shapes are listed in proofs/SectionsProofs.v and agree with Go. *)
+Theorem C03_sections_every_program : forall q, SE.qprog_ok q = true ->
+  compile (default_fuel (SE.qprint q)) (SE.qprint q) = OTree (ST.qprescribed q) (SE.qline_table q) (SE.qindent_type q).
+Proof. exact SE.compile_sections_default. Qed.
+Print Assumptions C03_sections_every_program.
+
+(* token level: a nested exec block (the body of a 如何 definition) at any depth, in any parser state *)
+Theorem C03_exec_block_tokens : forall ins b cs d F st st' bb, forallb ST.ywf b = true -> ST.ycwf cs = true ->
+  SN.nonnil b || SN.nonnil cs = true -> (ST.yxfuel ins b cs <= F)%nat ->
+  SN.lfeeds (ST.yxlines d ins b cs) st st' -> SN.endblk (Z.of_nat d) st' ->
+  flag st' = true /\ exists b', parse F (NExec (Z.of_nat d) 1 [] [] []) (SN.reb st false bb)
+                                 = Ok (XBlock ins (map ST.yast b) (map ST.ycatch cs)) (SN.setb st' b').
+Proof. exact ST.parse_exec_tokens. Qed.
+Print Assumptions C03_exec_block_tokens.
 
 (* ---- text that only rearranges layout never changes the tree ----
    A layout [LI.layout] chooses the indentation unit (four spaces or one TAB per level, one unit throughout the text — mixing them is
